@@ -170,6 +170,8 @@ def obligations(tier, seed):
     for cname, nfix, rev in plans:
         for fixed in itertools.product([0, 1], repeat=nfix):
             for what in ("signature", "reciprocity"):
+                if cname == "n4" and what == "reciprocity" and not fixed[0]:
+                    continue  # the 12-candidate family: reciprocity only on the half that contains the first candidate
                 kb = sum(fixed) + (what == "signature")
                 out.append({"family": what, "cands": cname, "fixed": list(fixed), "what": what, "reverse": rev,
                             "mmax": 5 if q else 7, "build": ("add", "add-rev", "remove", "readd")[kb % 4],
@@ -196,7 +198,7 @@ META = {
                  "rotating over obligations) DirectedHypergraph on 4 nodes: every sub-family of 9 candidate hyperedges (sizes 2-4, with reverse "
                  "pairs, nested and overlapping shapes), bound m in [2,5] (chosen by the solver, including bounds below "
                  "the largest hyperedge), degree filter f an unbounded symbolic integer",
-        "thorough": "12 candidates on 4 nodes, m in [2,7]; reversed insertion order; a 14-candidate family on 6 nodes with sizes up to 6; string labels",
+        "thorough": "adds: 12 candidates on 4 nodes (signature: every sub-family; reciprocity: the sub-families containing the first candidate), m in [2,7]; reversed insertion order; a 14-candidate family on 6 nodes with sizes up to 6 (degree only); string labels",
     },
     "stand_ins": [],
     "outside_claim": ["candidate families other than the listed ones; overlapping source/target sets"],
